@@ -4,7 +4,7 @@ from checks import common_loops as cl, common_core as cc
 
 PID = "C22"
 RULE = ("Built with open-coroutine-core's `preemptive` feature; one process per case. (0) a chain of 1-3 busy coroutines on one thread, each spinning without yielding until the next link has run, ending in a trivial sibling: every link must finish, and no busy coroutine may burn "
-        "more than 500 ms of thread CPU time per link before its sibling ran (the slice is 10 ms); (1) a coroutine that marks a Syscall state and spins 60-150 ms of CPU must not be suspended (no Syscall->Suspend transition, the ready sibling runs only afterwards); "
+        "more than 500 ms of thread CPU time per link before its sibling ran (the slice is 10 ms); (1) a coroutine that marks a Syscall state and spins 60-150 ms of CPU must not be suspended (no Syscall->Suspend transition, the ready sibling runs only afterwards); race variant of (1): 150 rounds in which the coroutine computes 9.8-11.2 ms in the Running state and enters the call right when its slice ends, so that a preemption signal already on its way finds it inside the call - an equal-priority sibling that stamps the time whenever it gets the thread must never run during a stay inside the call, and every stay must end (with the handler's not-Running guard removed this crashes or hangs within seconds); "
         "(2) 1-4 coroutines compute integer + floating-point checksums for 3-12 M iterations while being preempted; results must equal a plain-thread reference; (3) 4-12 scheduling threads each run busy and yielding coroutines for 3 s: the process must survive and every result must be right. "
         "A recording listener counts preemptions (Running->Suspend not requested by the body); a case without a single preemption is inconclusive. Distinct = (scenario, variant).")
 
